@@ -640,4 +640,56 @@ example : (receive { isClient := false, rng := ⟨1, 2, 3, 4⟩, inp := Rfc6455.
 example : (receive { isClient := false, rng := ⟨1, 2, 3, 4⟩, inp := Rfc6455.frame true 8 none [3, 233, 98, 121] }).2.code = 1001 := by decide
 example : ∀ b ∈ ([120] : List UInt8), b ≠ 10 := by decide
 
+/-- **`connect` requires the status 101**: an answer whose status line is `version SP status SP text` with any other status
+    (whatever follows) is refused. -/
+theorem client_requires_status_101 (version status text rest : List UInt8)
+    (hv : ∀ b ∈ version, b ≠ 32 ∧ b ≠ 10) (hs : ∀ b ∈ status, b ≠ 32 ∧ b ≠ 10) (ht : ∀ b ∈ text, b ≠ 10)
+    (h101 : status ≠ str101) :
+    clientAccepts ((version ++ 32 :: (status ++ 32 :: text)) ++ 10 :: rest) = false := by
+  have hline : ∀ b ∈ version ++ 32 :: (status ++ 32 :: text), b ≠ 10 := by
+    intro b hb
+    simp only [List.mem_append, List.mem_cons] at hb
+    rcases hb with hb | hb | hb | hb | hb
+    · exact (hv b hb).2
+    · rw [hb]; decide
+    · exact (hs b hb).2
+    · rw [hb]; decide
+    · exact ht b hb
+  have hv' : ∀ x ∈ version, (x != 32) = true := fun x hx => by simpa using (hv x hx).1
+  have hs' : ∀ x ∈ status, (x != 32) = true := fun x hx => by simpa using (hs x hx).1
+  unfold clientAccepts
+  rw [readLine_line _ rest hline]
+  simp only
+  have e1 : (version ++ 32 :: (status ++ 32 :: text)).takeWhile (· != 32) = version := by
+    rw [takeWhile_all_append _ _ _ hv']; simp
+  have e2 : ((version ++ 32 :: (status ++ 32 :: text)).dropWhile (· != 32)).drop 1 = status ++ 32 :: text := by
+    rw [dropWhile_all_append _ _ _ hv']; simp
+  have e3 : (status ++ 32 :: text).takeWhile (· != 32) = status := by
+    rw [takeWhile_all_append _ _ _ hs']; simp
+  rw [e1, e2, e3]
+  have hne : (status != str101) = true := by simpa using h101
+  simp [hne]
+
+/-- **… and the upgrade headers**: a 101 answer without header lines is refused. -/
+theorem client_requires_upgrade_headers (rest : List UInt8) : clientAccepts (L0 ++ 10 :: ([13] ++ 10 :: rest)) = false := by
+  unfold clientAccepts
+  rw [readLine_line L0 _ (by decide)]
+  simp only
+  rw [if_neg (by decide), if_neg (by decide), if_neg (by decide)]
+  have : (L0 ++ 10 :: ([13] ++ 10 :: rest)).length + 2 = rest.length + 37 + 1 := by simp [L0]
+  rw [this, readHeadersRaw_end]
+  decide
+
+example : clientAccepts ([72, 84, 84, 80, 47, 49, 46, 49, 32, 50, 48, 48, 32, 79, 75, 13, 10, 13, 10]) = false := by decide
+example : (∀ b ∈ ([50, 48, 48] : List UInt8), b ≠ 32 ∧ b ≠ 10) ∧ ([50, 48, 48] : List UInt8) ≠ str101 := by decide
+
+/-- both handshakes end to end on a sample (evaluated by the kernel through the functions the driver runs): the request `connect`
+    writes for `ws://h/chat` with the generator in state (1, 2, 3, 4) is answered by `WebSocketServer::serve` with the 101 response
+    carrying the accept key of exactly the key the client drew, with the protocol line, and `connect` accepts that answer -/
+theorem handshake_end_to_end_sample :
+    let key := (clientKey ⟨1, 2, 3, 4⟩).1
+    let req := clientRequest [47, 99, 104, 97, 116] [104] [56, 48] key
+    key.length = 24 ∧ serverHandshake req = serverResponse key true ∧ clientAccepts (serverHandshake req) = true := by
+  decide +kernel
+
 end C11
